@@ -126,6 +126,13 @@ CHECKS.update({
    technique="bounded symbolic execution of the real Python (PYSYM) and C (LLSYM) over uninterpreted hash/ROMix cores + z3"),
 })
 
+CHECKS.update({
+ 'C06': dict(engine="PYSYM+LLSYM", category="other",
+   text="Partial. (PYSYM) the real Crypto.Protocol.DH.key_agreement and EccPoint/EccXPoint operator code run over an abstract commutative group with every private scalar symbolic: z3 decides that in each supported SP 800-56A role combination both parties derive the same Z = Ze || Zs with each part the encoded x-coordinate of d_own * Q_peer, that unsupported combinations / wrong key kinds / neutral results are refused, that the scalar handed to the C code is exactly k for every k of 1..75 bytes, and the copy-vs-in-place, negation, equality and neutral-element conventions.  (LLSYM) the real linear field kernels of mod25519.c (all representation changes, add_25519, sub_25519, add32, both reductions, is_zero, cswap), curve448.c cswap and bignum.c ge/sub/add_mod/sub_mod/mod_select with every limb symbolic against their integer specifications.",
+   note="NOT decided: the multiplication-based C kernels (mul_25519, mont_mult_*, projective add/double, scalar multiplication loops, ladders, tables) and therefore agreement of the C scalar multiplication with the group law: wide modular multiplication identities are not SMT-decidable here (measured).  The abstract group assumes: results on the curve and reduced, addition commutes, a(bQ)=b(aQ), exchanges between valid keys are not neutral.",
+   technique="bounded symbolic execution of the real Python over an abstract group (PYSYM) and of the real linear C field kernels from LLVM IR (LLSYM) + z3"),
+})
+
 ENGINES = [
     dict(name="PYSYM", path="vlib/pysym", kind_free_text="bounded symbolic execution of the real Python source (AST-rewritten import, symbolic bytes/int proxies, fork by re-execution under a decision prefix) decided by z3"),
     dict(name="LLSYM", path="vlib/llsym", kind_free_text="symbolic interpreter of clang-14 LLVM IR (-O0 + mem2reg) of /repo/src/*.c into z3 terms, bounds-checked memory model, local path exploration with ite-merge at function returns; replay on the gcc-built C through ctypes"),
